@@ -12,7 +12,7 @@
 //! Loss is tolerated (a missing datagram is only a violation where the oracle
 //! expects delivery and nothing arrives within a generous deadline).
 use std::collections::HashMap;
-use std::net::{Ipv4Addr, SocketAddr, UdpSocket};
+use std::net::{IpAddr, Ipv4Addr, Ipv6Addr, SocketAddr, UdpSocket};
 use std::os::unix::prelude::{AsRawFd, IntoRawFd};
 use std::sync::{Arc, Mutex};
 use std::thread;
@@ -23,7 +23,7 @@ use sozu_command_lib::{
     channel::Channel,
     config::{ConfigBuilder, FileConfig},
     proto::command::{
-        request::RequestType, ActivateListener, DeactivateListener, AddBackend, Cluster, ListenerType, LoadBalancingParams,
+        request::RequestType, ActivateListener, DeactivateListener, RemoveListener, AddBackend, Cluster, ListenerType, LoadBalancingParams,
         Request, RequestUdpFrontend, ResponseStatus, ServerConfig, SoftStop, UdpAffinityKey, UdpClusterConfig,
         UdpListenerConfig, WorkerRequest, WorkerResponse,
     },
@@ -41,8 +41,12 @@ fn rt() -> Duration {
 }
 const QUIET: Duration = Duration::from_millis(400);
 
-fn free_udp_port() -> u16 {
-    UdpSocket::bind((Ipv4Addr::LOCALHOST, 0)).unwrap().local_addr().unwrap().port()
+fn loopback(v6: bool) -> IpAddr {
+    if v6 { IpAddr::V6(Ipv6Addr::LOCALHOST) } else { IpAddr::V4(Ipv4Addr::LOCALHOST) }
+}
+
+fn free_udp_port(v6: bool) -> u16 {
+    UdpSocket::bind((loopback(v6), 0)).unwrap().local_addr().unwrap().port()
 }
 
 fn no_cloexec(fd: i32) {
@@ -111,8 +115,8 @@ struct Backend {
     seen: Arc<Mutex<Vec<Seen>>>,
 }
 
-fn spawn_backend(idx: usize, stop: Arc<Mutex<bool>>) -> Backend {
-    let sock = UdpSocket::bind((Ipv4Addr::LOCALHOST, 0)).unwrap();
+fn spawn_backend(idx: usize, stop: Arc<Mutex<bool>>, v6: bool) -> Backend {
+    let sock = UdpSocket::bind((loopback(v6), 0)).unwrap();
     sock.set_read_timeout(Some(Duration::from_millis(50))).unwrap();
     let addr = sock.local_addr().unwrap();
     let seen = Arc::new(Mutex::new(vec![]));
@@ -146,6 +150,12 @@ fn strip_pp(raw: &[u8]) -> (Option<SocketAddr>, &[u8]) {
         let port = u16::from_be_bytes([raw[24], raw[25]]);
         return (Some(SocketAddr::new(ip.into(), port)), &raw[28..]);
     }
+    if raw.len() >= 52 && raw[..12] == SIG && raw[12] == 0x21 && raw[13] == 0x22 {
+        let mut a = [0u8; 16];
+        a.copy_from_slice(&raw[16..32]);
+        let port = u16::from_be_bytes([raw[48], raw[49]]);
+        return (Some(SocketAddr::new(Ipv6Addr::from(a).into(), port)), &raw[52..]);
+    }
     (None, raw)
 }
 
@@ -174,6 +184,8 @@ fn run(c: &Case, out: &mut Out) {
     let (mut with_port, mut responses, mut requests, mut pp, mut max_flows) = (true, 0u32, 0u32, false, 0u32);
     let mut pp_every = false;
     let mut bounced = false;
+    let mut v6 = false;
+    let mut removed = false;
     // flow key -> (replies so far, requests so far); a key is the client address (4-tuple) or its IP (2-tuple)
     let mut live: HashMap<String, (u32, u32, usize, SocketAddr, i128, SocketAddr)> = HashMap::new(); // + backend index, upstream peer, owner client, its address
     let mut sent_by: HashMap<i128, Vec<Vec<u8>>> = HashMap::new();
@@ -190,8 +202,9 @@ fn run(c: &Case, out: &mut Out) {
                 let nb = a[5].n() as usize;
                 let idle_s = a.get(6).map_or(30, |t| t.n() as u32);
                 pp_every = a.get(7).map_or(false, |t| t.n() == 1);
+                v6 = a.get(8).map_or(false, |t| t.n() == 1);
                 let mut w = Worker::start();
-                let faddr = SocketAddr::new(Ipv4Addr::LOCALHOST.into(), free_udp_port());
+                let faddr = SocketAddr::new(loopback(v6), free_udp_port(v6));
                 let mut ok = w.req(RequestType::AddUdpListener(UdpListenerConfig {
                     address: faddr.into(),
                     public_address: None,
@@ -226,7 +239,7 @@ fn run(c: &Case, out: &mut Out) {
                     tags: Default::default(),
                 }));
                 for i in 0..nb {
-                    let b = spawn_backend(i, stop.clone());
+                    let b = spawn_backend(i, stop.clone(), v6);
                     ok &= w.req(RequestType::AddBackend(AddBackend {
                         cluster_id: CLUSTER.into(),
                         backend_id: format!("b{i}"),
@@ -254,7 +267,8 @@ fn run(c: &Case, out: &mut Out) {
                 };
                 clients.entry(ci).or_insert_with(|| {
                     // distinct loopback source IPs so the 2-tuple mode distinguishes clients
-                    let ip = Ipv4Addr::new(127, 0, 0, 2 + (ci as u8 % 4));
+                    // (IPv6 loopback is the single address ::1: every client then shares the source IP)
+                    let ip: IpAddr = if v6 { loopback(true) } else { Ipv4Addr::new(127, 0, 0, 2 + (ci as u8 % 4)).into() };
                     UdpSocket::bind((ip, 0)).expect("bind client")
                 });
                 let sock = &clients[&ci];
@@ -267,7 +281,7 @@ fn run(c: &Case, out: &mut Out) {
                 let cap = if max_flows == 0 { u32::MAX } else { max_flows };
                 let existing = live.contains_key(&key);
                 // larger than max_rx_datagram_size (1500): dropped before any flow is allocated
-                let admitted = payload.len() <= 1500 && (existing || (live.len() as u32) < cap);
+                let admitted = !removed && payload.len() <= 1500 && (existing || (live.len() as u32) < cap);
                 // wait for the datagram at some backend
                 let deadline = Instant::now() + if admitted { if bounced { rt().min(Duration::from_millis(1500)) } else { rt() } } else { QUIET };
                 let mut hit: Option<(usize, Seen)> = None;
@@ -386,6 +400,19 @@ fn run(c: &Case, out: &mut Out) {
                     live.clear();
                 }
                 out.obs(&[]);
+            }
+            "remove" => {
+                // RemoveListener with live flows: every flow is released, nothing is forwarded any more,
+                // the worker keeps running and still stops on request
+                let faddr = front.unwrap();
+                let w = worker.as_mut().unwrap();
+                let ok = w.req(RequestType::RemoveListener(RemoveListener {
+                    address: faddr.into(),
+                    proxy: ListenerType::Udp.into(),
+                }));
+                live.clear();
+                removed = true;
+                out.obs(&[ts("remove"), tbool(ok)]);
             }
             "bounce" => {
                 // DeactivateListener then ActivateListener on the same worker: every flow is released
